@@ -27,6 +27,14 @@ func didQueryRules(p *Prog, r *Report, m *didModel, clause string, wantLife, wan
 			}
 		}
 		if get == nil {
+			// the read may sit in an extracted helper of the handler ("load the active document or fail")
+			for _, vc := range o.VirtualCalls() {
+				if !vc.Direct && vc.Callee != nil && m.getters[resolveBound(vc.Callee)] && vc.Term != nil && vc.Always {
+					get = vc.Term
+				}
+			}
+		}
+		if get == nil {
 			r.Undecided(kp("VIEW", hn), "the DID query reads through the getter", p.FnPos(fn), "no getter call")
 			continue
 		}
